@@ -11,6 +11,9 @@ pathfinders ends with.
                          that moment (call-site obligation), ids stay fresh, a live node remains
   simplify_scalars()     collects different live scalar nodes (and the smallest other node) and folds them left
                          to right: every step joins two different live nodes
+  remove_ix(ix) / simplify_batch()
+                         drop an index from the legs of exactly the nodes that carry it / drop the indices that
+                         sit on every node: WHICH nodes are live and the recorded path never change
   neighbors(i)           never yields i itself (what optimize_greedy relies on for 'different')
   optimize_remaining_by_size()
                          from ANY state with at least one live node ends with exactly
@@ -353,7 +356,71 @@ scalars = Contract(
     # ids stay fresh; every step recorded went through contract_nodes with two different live nodes (call-site obligations)
     ensures=[FRESH, "self.appearances == old(self.appearances) and self.sizes == old(self.sizes)"],
 )
-CONTRACTS = [pop_node, add_node, contract_nodes, remaining, greedy, neighbors, scalars]
+# ------------------------------------------------------------ remove_ix / simplify_batch
+NL = "self.nodes[n]"
+ONL = "old(self.nodes)[n]"
+remove_ix = Contract(
+    target="cotengra.pathfinders.path_basic:ContractionProcessor.remove_ix",
+    props=["C05"],
+    self_type=ProcT,
+    params={"ix": Int},
+    # (class invariant, monitored: every node listed under an index is a live node)
+    requires=["ix in self.edges", "forall(self.edges[ix], lambda n: n in self.nodes)"],
+    returns=Ty.NoneT,
+    modifies=["self.nodes", "self.edges"],
+    hints={"node": Int, "jx": Int, "jx_count": Int},
+    nloops=1,
+    loops={0: Loop(seen="S", inv=[
+        "keys(self.nodes) == old(keys(self.nodes))",
+        "keys(self.edges) == without_key(old(keys(self.edges)), ix)",
+        "forall(keys(self.edges), lambda e: self.edges[e] == old(self.edges)[e])",
+        f"forall(keys(self.nodes), lambda n: implies(not (n in S), {NL} == {ONL}))",
+        f"forall(S, lambda n: n in self.nodes and forall(0, len({NL}), lambda p: {NL}[p][0] != ix and exists(0, len({ONL}), lambda q: {ONL}[q] == {NL}[p])))",
+        f"forall(S, lambda n: forall(0, len({ONL}), lambda q: implies({ONL}[q][0] != ix, exists(0, len({NL}), lambda p: {NL}[p] == {ONL}[q]))))",
+    ])},
+    ensures=[
+        # the set of live nodes is untouched; the index leaves the edge map, no other entry of it changes
+        "keys(self.nodes) == old(keys(self.nodes))",
+        "keys(self.edges) == without_key(old(keys(self.edges)), ix)",
+        "forall(keys(self.edges), lambda e: self.edges[e] == old(self.edges)[e])",
+        # on the nodes that carried it: no leg with that index is left, every other leg is kept
+        f"forall(old(self.edges[ix]), lambda n: forall(0, len({NL}), lambda p: {NL}[p][0] != ix and exists(0, len({ONL}), lambda q: {ONL}[q] == {NL}[p])))",
+        f"forall(old(self.edges[ix]), lambda n: forall(0, len({ONL}), lambda q: implies({ONL}[q][0] != ix, exists(0, len({NL}), lambda p: {NL}[p] == {ONL}[q]))))",
+        # every other node keeps its legs
+        f"forall(keys(self.nodes), lambda n: implies(not (n in old(self.edges[ix])), {NL} == {ONL}))",
+        "self.ssa == old(self.ssa)", "self.ssa_path == old(self.ssa_path)",
+    ],
+)
+batch = Contract(
+    target="cotengra.pathfinders.path_basic:ContractionProcessor.simplify_batch",
+    props=["C05"],
+    self_type=ProcT,
+    params={},
+    requires=["forall(keys(self.edges), lambda e: forall(self.edges[e], lambda n: n in self.nodes))",
+              "forall(keys(self.edges), lambda e: 0 <= e and e < len(self.sizes))"],
+    returns=Ty.NoneT,
+    modifies=["self.nodes", "self.edges", "self.flops_factor"],
+    hints={"ix_to_remove": Ty.List(Int), "ix": Int, "ix_nodes": Ty.Set(Int)},
+    nloops=2,
+    loops={
+        0: Loop(seen="S", inv=[
+            "forall(0, len(ix_to_remove), lambda a: ix_to_remove[a] in S and ix_to_remove[a] in self.edges)",
+            "forall(0, len(ix_to_remove), lambda a: forall(0, len(ix_to_remove), lambda b: implies(a != b, ix_to_remove[a] != ix_to_remove[b])))",
+        ]),
+        1: Loop(pos="t", inv=[
+            "keys(self.nodes) == old(keys(self.nodes))",
+            "len(ix_to_remove) == at_entry(len(ix_to_remove))",
+            "forall(t, len(ix_to_remove), lambda a: ix_to_remove[a] in self.edges)",
+            "forall(0, len(ix_to_remove), lambda a: forall(0, len(ix_to_remove), lambda b: implies(a != b, ix_to_remove[a] != ix_to_remove[b])))",
+            "forall(keys(self.edges), lambda e: forall(self.edges[e], lambda n: n in self.nodes))",
+            "forall(keys(self.edges), lambda e: 0 <= e and e < len(self.sizes))",
+            "self.sizes == old(self.sizes) and self.ssa == old(self.ssa) and self.ssa_path == old(self.ssa_path)",
+        ]),
+    },
+    # dropping batch indices never changes WHICH nodes are live, nor the recorded path
+    ensures=["keys(self.nodes) == old(keys(self.nodes))", "self.ssa == old(self.ssa) and self.ssa_path == old(self.ssa_path)"],
+)
+CONTRACTS = [pop_node, add_node, contract_nodes, remaining, greedy, neighbors, scalars, remove_ix, batch]
 
 
 # ------------------------------------------------------------ native side
@@ -436,7 +503,32 @@ def _gen_scalars(rng):
     return {"self": cp, "args": (), "describe": f"inputs={inputs} output={output}"}
 
 
-greedy.gen, neighbors.gen, scalars.gen = _gen_greedy, _gen_neighbors, _gen_scalars
+def _gen_remove_ix(rng):
+    cp, d = _processor(rng)
+    if not cp.edges:
+        return None
+    ix = rng.choice(sorted(cp.edges))
+    return {"self": cp, "args": (ix,), "describe": d + f" remove_ix {ix}"}
+
+
+def _gen_batch(rng):
+    from cotengra.pathfinders.path_basic import ContractionProcessor
+
+    # networks with an index on every tensor (a batch index) next to ordinary ones
+    pool = "abcd"
+    n = rng.randint(1, 5)
+    common = rng.choice(["", "z", "zy"])
+    inputs = [tuple(common) + tuple(rng.choice(pool) for _ in range(rng.randint(0, 3))) for _ in range(n)]
+    used = sorted({ix for t in inputs for ix in t})
+    output = tuple(rng.sample(used, rng.randint(0, min(2, len(used)))))
+    sd = {ix: rng.randint(2, 3) for ix in used}
+    cp = ContractionProcessor(inputs, output, sd)
+    return {"self": cp, "args": (), "describe": f"inputs={inputs} output={output}"}
+
+
+greedy.gen, neighbors.gen, scalars.gen, remove_ix.gen, batch.gen = _gen_greedy, _gen_neighbors, _gen_scalars, _gen_remove_ix, _gen_batch
+# natively: afterwards no index sits on every live node (unless there is a single node... the code's own criterion)
+batch.ensures_rt = ["all(len(ns) < len(self.nodes) for ns in self.edges.values())"]
 # afterwards no scalar is left unless everything was a scalar (then exactly one node is left)
 scalars.ensures_rt = ["all(len(legs) > 0 for legs in self.nodes.values()) or len(self.nodes) == 1"]
 for _c in CONTRACTS:
